@@ -98,6 +98,25 @@ class Client:
             url += "?" + q
         return self.raw(method, url, headers, wire, timeout=timeout, content_length=content_length)
 
+    def req_streaming(self, method, path, make_body, query=None, headers=None, payload_type="STREAMING-AWS4-HMAC-SHA256-PAYLOAD",
+                      secret=None, tamper=None, timeout=30):
+        """aws-chunked request: headers are signed first with the streaming payload type; make_body(seed_sig, key, amzdate,
+        date8, region) returns the encoded body. Returns (Resp, seed signature)."""
+        import datetime as _dt
+        headers = dict(headers or {})
+        if isinstance(query, dict):
+            query = list(query.items())
+        query = query or []
+        cpath = quote_path(path)
+        cq = "&".join("%s=%s" % (quote_q(k), quote_q(v)) for k, v in sorted(query))
+        now = _dt.datetime.utcnow()
+        sig, key, amzdate, scope = self.sign(method, cpath, cq, headers, payload_type, now=now, secret=secret)
+        body = make_body(sig, key, amzdate, now.strftime("%Y%m%d"), self.region)
+        if tamper:
+            tamper(headers)
+        url = cpath + ("?" + cq if cq else "")
+        return self.raw(method, url, headers, body, timeout=timeout), sig
+
     def raw(self, method, url, headers, wire=b"", timeout=20, content_length=None):
         cls = http.client.HTTPSConnection if self.tls else http.client.HTTPConnection
         kw = {}
@@ -118,11 +137,14 @@ class Client:
                 conn.send(wire)
             r = conn.getresponse()
             data = r.read()
-            return Resp(r.status, r.getheaders(), data)
+            rr = Resp(r.status, r.getheaders(), data)
+            rr.wire = wire
+            return rr
         except (OSError, http.client.HTTPException) as e:
             # connection refused / reset / closed without a response: an observation, not a harness error
             rr = Resp(-1, [], b"")
             rr.error = repr(e)
+            rr.wire = wire
             return rr
         finally:
             conn.close()
